@@ -258,3 +258,31 @@ package pointindex
 //@   ensures[C14] result == nil ==> forall(j, 0, len(ids), perMatrix(tms.TileMatrices[ids[j]], ids[j]))
 //@   ensures[C14] result == nil ==> forall(j Int, k Int, 0 <= j && k == j + 1 && k < len(ids) ==> ids[k] == ids[j] + 1 && pairOK(tms.TileMatrices[ids[j]], tms.TileMatrices[ids[k]]))
 //@   ensures[C14] result == nil ==> forall(k Int, hasKey(tms.TileMatrices, k) ==> perMatrix(tms.TileMatrices[k], k))
+
+// ---------------------------------------------------------------------------------------------
+// C03: the index made for a tile matrix set. level = tile matrix id + log2(tile width) + log2(16);
+// the grid starts at the bottom left corner of matrix 0 and has 2^level pixels of (span / 2^level) units each.
+// Preconditions (part of every claim built on this): matrix 0 exists with a decoded origin and no variable widths,
+// tile width in [1, 2^40], level <= 32, bounding box of matrix 0 inside +-5e7 units and at least one unit (1e-10)
+// per deepest pixel wide.
+//@ macro tmLevel(tms, id) = id + trunc(log2r(real(tms.TileMatrices[0].TileWidth))) + 4
+//@ macro bbOK(tms) = 0 - 50000000 < bboxBL(tms, 0)[0] && bboxBL(tms, 0)[0] < 50000000 && 0 - 50000000 < bboxBL(tms, 0)[1] && bboxBL(tms, 0)[1] < 50000000
+//@     && 0 - 50000000 < bboxTR(tms, 0)[0] && bboxTR(tms, 0)[0] < 50000000 && 0 - 50000000 < bboxTR(tms, 0)[1] && bboxTR(tms, 0)[1] < 50000000
+//@ macro bbMinX(tms) = trunc(bboxBL(tms, 0)[0] * 10000000000)
+//@ macro bbMinY(tms) = trunc(bboxBL(tms, 0)[1] * 10000000000)
+//@ macro bbMaxX(tms) = trunc(bboxTR(tms, 0)[0] * 10000000000)
+//@ macro bbMaxY(tms) = trunc(bboxTR(tms, 0)[1] * 10000000000)
+//@ macro indexable(tms, id) = (hasKey(tms.TileMatrices, 0) ==> !isNil(tms.TileMatrices[0].PointOfOrigin) && isNil(tms.TileMatrices[0].VariableMatrixWidths))
+//@     && 0 <= id && 1 <= tms.TileMatrices[0].TileWidth && tms.TileMatrices[0].TileWidth <= 1099511627776 && tmLevel(tms, id) <= 32
+//@     && bbOK(tms) && bbMaxX(tms) - bbMinX(tms) >= pow2(tmLevel(tms, id))
+//@ func FromTileMatrixSet
+//@   prelude arith tmsaxis
+//@   requires indexable(tileMatrixSet, deepestTMID)
+//@   let level = tmLevel(tileMatrixSet, deepestTMID)
+//@   let res = (bbMaxX(tileMatrixSet) - bbMinX(tileMatrixSet)) / pow2(level)
+//@   use pow2_split(level, 0)
+//@   ensures[C03,C14] (result1 != nil) == (!hasKey(tileMatrixSet.TileMatrices, 0) || xyErr(tileMatrixSet))
+//@   ensures[C03,C14] result1 == nil ==> result0 != nil && wfIndex(result0)
+//@   ensures[C03,C08] result1 == nil ==> result0.deepestLevel == level && result0.deepestSize == pow2(level) && result0.deepestRes == res
+//@   ensures[C03] result1 == nil ==> result0.intExtent == arr(bbMinX(tileMatrixSet), bbMinY(tileMatrixSet), bbMaxX(tileMatrixSet), bbMaxY(tileMatrixSet))
+//@   ensures[C03] result1 == nil ==> result0.z == 0 && result0.intCentroid == arr(result0.intExtent[0] + pixSpan(result0, 0) / 2, result0.intExtent[1] + pixSpan(result0, 0) / 2)
